@@ -36,6 +36,8 @@ func init() {
 			{ID: "C18-R15", Title: "a failure kept in the compiler is cleared before compiling", Floor: 1, Run: stickyFailureClearedBeforeCompiling},
 			{ID: "C18-R16", Title: "clones share the code wrappers by pointer", Floor: 1, Run: clonesShareCodeWrappers},
 			{ID: "C18-R17", Title: "global slots are never Go nil", Floor: 1, Run: globalSlotsAreNeverGoNil},
+			{ID: "C18-R18", Title: "the rollback restores what compilation moves", Floor: 1, Run: rollbackRestoresWhatCompilationMoves},
+			{ID: "C18-R19", Title: "evaluations run under the caller's context", Floor: 2, Run: evaluationsRunUnderTheCallersContext},
 		},
 	})
 }
